@@ -296,6 +296,51 @@ def complete_families(ctx, drv, cfg):
                           {'lang': lang, 'text': text, 'ops': ops[:n0] + [{'op': 'execute', 'c': 7, 'lang': lang, 'text': text}]})
 
 
+def configured_language_without_rules(ctx, drv, cfg):
+    """Registration fails only for an unknown language: on a calculator built (load_from_json) from the shipped text in which a language
+    has no built-in rules - a new language copied from en with an empty rule table, or tr with its rules emptied - add_rule succeeds,
+    the rule fires, and delete_rule removes it."""
+    import copy
+    import os
+    from . import core
+    rng, res = ctx.rng, ctx.res
+    conf = lex.config()
+    if rng.random() < 0.5:
+        lang = 'de'
+        body = copy.deepcopy(conf['languages']['en'])
+        body['rules'] = {}
+        edits = [['/languages/de', body]]
+    else:
+        lang = 'tr'
+        edits = [['/languages/tr/rules', {}]]
+    w = rng.choice([3, 7, 11])
+    setup = [{'op': 'new_calc_json', 'c': 4, 'seg': True, 'path': os.path.join(core.REPO, 'src/json/config.json'), 'set': edits}] + gh.config_ops(cfg, 4, seg=False)
+    ops = setup + [{'op': 'add_rule', 'c': 4, 'lang': lang, 'patterns': ['blip {NUMBER:n}'], 'spec': {'name': 'solo', 'kind': 'encode', 'weights': {'n': w}}},
+                   {'op': 'execute', 'c': 4, 'lang': lang, 'text': 'blip 8'},
+                   {'op': 'execute', 'c': 4, 'lang': lang, 'text': '2 * (blip 8) + blip 1'},
+                   {'op': 'delete_rule', 'c': 4, 'lang': lang, 'name': 'solo'},
+                   {'op': 'execute', 'c': 4, 'lang': lang, 'text': 'blip 8'},
+                   {'op': 'add_rule', 'c': 4, 'lang': 'xx', 'patterns': ['blip {NUMBER:n}'], 'spec': {'name': 'solo', 'kind': 'const', 'value': 1}}]
+    rs = drv.run(ops)[len(setup):]
+    checks = [('add_rule for the configured language %r returns true' % lang, rs[0].get('ok') is True),
+              ("'blip 8' gives %r" % (8.0 * w), mon.kind(mon.slot0(rs[1])) == 'number' and mon.fval(mon.slot0(rs[1])) == 8.0 * w),
+              ("'2 * (blip 8) + blip 1' gives %r" % (17.0 * w), mon.kind(mon.slot0(rs[2])) == 'number' and mon.fval(mon.slot0(rs[2])) == 17.0 * w),
+              ('delete_rule returns true', rs[3].get('ok') is True),
+              ("after delete_rule 'blip 8' is 8 again", mon.kind(mon.slot0(rs[4])) == 'number' and mon.fval(mon.slot0(rs[4])) == 8.0),
+              ('add_rule for the unknown language xx returns false', rs[5].get('ok') is False)]
+    for k, (what, ok) in enumerate(checks):
+        res.cases += 1
+        res.count('class:language-without-built-in-rules')
+        res.distinct.add('norules', lang, w, k)
+        if ok:
+            res.count('ok')
+        else:
+            res.violation('api:language-without-rules', 'a calculator built from the shipped configuration text with %s: expected that %s; results: %s' % (
+                'a language de copied from en with an empty rule table' if lang == 'de' else 'the rule table of tr emptied', what,
+                [r if 'lines' not in r else mon.describe(mon.slot0(r)) for r in rs]), {'lang': lang, 'text': 'blip 8', 'ops': ops})
+            break
+
+
 def decline_equivalence(ctx, drv, cfg):
     """A match that the rule declines leaves the line as if that pattern were absent: a rule with the patterns [P1, P2] whose
     behaviour declines every P1 match (the field it needs is only bound by P2) must behave exactly like the same rule registered
@@ -357,6 +402,8 @@ def run_shard(ctx):
             decline_equivalence(ctx, drv, cfg)
         if n_hist % 8 == 5:
             complete_families(ctx, drv, cfg)
+        if n_hist % 8 == 3:
+            configured_language_without_rules(ctx, drv, cfg)
         model = Model()
         ops = [{'op': 'new_calc', 'c': 0, 'seg': True}] + gh.config_ops(cfg, 0, seg=False)
         meta = {}
